@@ -25,9 +25,28 @@ def structural(ctx, kp):
         ctx.violation('chroma-table', 'Chromas / ChromasByValue are not a 39-entry bijection', {})
 
 
+_N = [0]
+
+
+def dir_arg(kp, up):
+    """The direction argument in rotating forms: source literal, enum value, and strings built at run time (as they arrive
+    from files, JSON or the command line) - equal strings must behave equally."""
+    _N[0] += 1
+    k = _N[0] % 4
+    word = 'up' if up else 'down'
+    if k == 0:
+        return word
+    if k == 1:
+        return (kp.Direction.UP if up else kp.Direction.DOWN).value
+    if k == 2:
+        return ''.join(list(word))             # a fresh str object
+    return (word.upper() + ' ').strip().lower()  # another fresh str object
+
+
 def one(ctx, kp, letter, alt, octave, name, up, *, record=True):
     src = I.spell(letter, alt, octave)
-    direction = 'up' if up else 'down'
+    direction = dir_arg(kp, up)
+    ctx.mon('direction_argument_forms')
     case = {'pitch': src, 'interval': name, 'direction': direction}
     el, ea, eo = I.transpose(letter, alt, octave, name, up)
     spellable = abs(ea) <= 2
@@ -58,7 +77,7 @@ def one(ctx, kp, letter, alt, octave, name, up, *, record=True):
     ctx.ev()
     ctx.mon('inverse_call')
     try:
-        back = kp.transpose(got, kp.IntervalsByName[name], direction=('down' if up else 'up'))
+        back = kp.transpose(got, kp.IntervalsByName[name], direction=dir_arg(kp, not up))
         if back != src:
             ctx.violation('inverse', f'{src} {direction} {name} -> {got} -> back {back!r} (expected {src!r})', case)
     except Exception as e:
@@ -68,7 +87,8 @@ def one(ctx, kp, letter, alt, octave, name, up, *, record=True):
 
 def laws(ctx, kp, letter, alt, octave):
     src = I.spell(letter, alt, octave)
-    for d in ('up', 'down'):
+    for d0 in ('up', 'down'):
+        d = dir_arg(kp, d0 == 'up')
         ctx.ev()
         ctx.mon('law_call')
         got = kp.transpose(src, kp.IntervalsByName['P1'], direction=d)
@@ -95,7 +115,7 @@ def run(ctx: Ctx):
     octaves = range(0, 9) if ctx.tier == 'quick' else range(-2, 12)
     ctx.rule = (f'exhaustive grid through the public kernpy.transpose: 7 letters x alterations -2..+2 x octaves '
                 f'{octaves.start}..{octaves.stop - 1} x 40 named intervals x 2 directions, each compared with an independent '
-                f'letter/semitone model; result required whenever the exact result has <= 2 accidentals, otherwise counted '
+                f'letter/semitone model (direction passed as literal, enum value and run-time built strings in rotation); result required whenever the exact result has <= 2 accidentals, otherwise counted '
                 f'as unspellable; inverse law wherever the forward call returned; unison, octave and P4+P5 laws on every pitch. '
                 f'Non-trivial = spellable case with an interval other than P1/octave; distinct by (pitch, interval, direction).')
     ctx.assumptions = ['interval sizes follow standard theory (model/intervals.py)', 'Humdrum spelling c=C4, C=C3']
